@@ -43,6 +43,23 @@ class LiteralTypeHint(TypeHint):
         return False
 
     # ..................{ PRIVATE ~ testers                  }..................
+    def _is_subhint_branch(self, branch: TypeHint) -> bool:
+
+        # If this branch is also a literal (e.g., the "Literal[2]" in
+        # "Literal[2] | str"), return true only if each object subscripting this
+        # literal is an object subscripting that literal. The default
+        # implementation of this method compares the (empty) tuples of child
+        # hint wrappers of both literals and would thus erroneously report
+        # *ANY* literal to be a subhint of *ANY* other literal.
+        #
+        # Else, defer to the default implementation of this method.
+        return (
+            self._is_subhint(branch)
+            if isinstance(branch, LiteralTypeHint) else
+            super()._is_subhint_branch(branch)
+        )
+
+
     def _is_subhint(self, other: TypeHint) -> bool:
 
         # If the passed hint is also a literal, return true only if the set of
